@@ -7,6 +7,8 @@
 // VF-BUDGET_THOROUGH: 3600
 // VF-TECHNIQUE: exhaustive enumeration of environment answers (injected generator words) on the real samplers; explicit history enumeration for reproducibility
 #include "vf.hpp"
+#include <Bpp/Numeric/Prob/MixtureOfDiscreteDistributions.h>
+#include <Bpp/Numeric/Prob/InvariantMixedDiscreteDistribution.h>
 #include "common.hpp"
 #include <Bpp/Numeric/Random/RandomTools.h>
 #include <Bpp/Numeric/Random/ContingencyTableGenerator.h>
@@ -111,6 +113,7 @@ int main(int argc, char** argv) {
   for (double a : {0.5, 1.0, 4.0}) for (double b : {0.5, 1.0, 4.0, 20.0}) laws.push_back({"randBeta(" + num(a) + "," + num(b) + ")", 1, [a, b] { return RandomTools::randBeta(a, b); }, [a, b](double x) { return RandomTools::pBeta(x, a, b); }});
   // each distribution's own continuous draw against its own cumulative function
   for (double a : {0.5, 4.0}) for (double b : {0.25, 4.0}) { auto d = std::make_shared<GammaDiscreteDistribution>(4, a, b); laws.push_back({"GammaDiscreteDistribution(alpha=" + num(a) + ",beta=" + num(b) + ").randC", a < 1 ? 4 : 3, [d] { return d->randC(); }, [d](double x) { return d->pProb(x); }}); }
+  for (double off : {1.5, -1.0}) { auto d = std::make_shared<GammaDiscreteDistribution>(4, 2.0, 1.0, 0.05, 0.05, true, off); laws.push_back({"GammaDiscreteDistribution(alpha=2,beta=1,offset=" + num(off) + ").randC", 3, [d] { return d->randC(); }, [d](double x) { return d->pProb(x); }}); }
   for (double mu : {0.0, 1.0}) for (double s : {0.25, 4.0}) { auto d = std::make_shared<GaussianDiscreteDistribution>(4, mu, s); laws.push_back({"GaussianDiscreteDistribution(mu=" + num(mu) + ",sigma=" + num(s) + ").randC", 2, [d] { return d->randC(); }, [d](double x) { return d->pProb(x); }}); }
   for (double l : {0.25, 4.0}) { auto d = std::make_shared<ExponentialDiscreteDistribution>(4, l); laws.push_back({"ExponentialDiscreteDistribution(lambda=" + num(l) + ").randC", 1, [d] { return d->randC(); }, [d](double x) { return d->pProb(x); }}); }
   for (double l : {0.25, 4.0}) { auto d = std::make_shared<TruncatedExponentialDiscreteDistribution>(4, l, 2.0); laws.push_back({"TruncatedExponentialDiscreteDistribution(lambda=" + num(l) + ",tp=2).randC", 1, [d] { return d->randC(); }, [d](double x) { return d->pProb(x); }}); }
@@ -189,6 +192,18 @@ int main(int argc, char** argv) {
     if (n && got.size() != n) c.fail("pickOne|element-never-drawn", in + ": " + str(got.size()) + " of " + str(n) + " elements reachable over the lattice");
   }, 60.0, 1);
 
+  // emptiness is reported by exception: the weighted and cumulative-sum forms on empty vectors
+  R.space("structure:empty-sources:weighted-pick,cumulative-pick,sample", 4, [=](uint64_t idx, vf::Case& c) {
+    std::vector<int> v; std::vector<double> w; std::vector<int> out(idx == 3 ? 0 : 1);
+    std::vector<uint32_t> ws; LU.U(0, ws); inject(ws, FILL);
+    const char* nm[] = {"pickOne(v={},w={},replace=true)", "pickFromCumSum({})", "getSample(v={},vout(1),replace=true)", "getSample(v={},vout(0))"};
+    c.site(nm[idx]);
+    std::string oc = vfh::outcome([&] { if (idx == 0) (void)RandomTools::pickOne(v, w, true); else if (idx == 1) (void)RandomTools::pickFromCumSum(w); else RandomTools::getSample(v, out, idx == 2); });
+    c.nontrivial(); c.tag(std::string("empty-source:") + (oc == "ok" ? "returned" : "raised"));
+    if (idx == 3) { if (oc != "ok") c.fail("empty|empty-sample-of-empty-source-raised", std::string(nm[idx]) + ": " + oc); return; }   // nothing is asked for
+    if (oc.find("EmptyVector") == std::string::npos) c.fail("empty|empty-source-not-reported", std::string(nm[idx]) + ": " + oc);
+  }, 10.0, 1);
+
   // weighted picks, cumulative-sum picks, multinomial, discrete rand(): every weight vector over {0,1,3} (not all zero) of length 1..4, lattice over u
   {
     int NU = th ? 4096 : 1024; Lattice LW{NU, false};
@@ -249,6 +264,33 @@ int main(int argc, char** argv) {
       c.out->evals += (uint64_t)NU; c.nontrivial();
       for (size_t i = 0; i < d->getNumberOfCategories(); ++i) { double v = d->getCategory(i), p = d->getProbability(i); double f = (double)cnt[v] / NU; if (std::fabs(f - p) > 2.0 / NU) c.fail("rand|class-frequencies-differ-from-probabilities", d->getName() + " class " + str(i) + " frequency " + num(f) + " probability " + num(p)); cnt.erase(v); }
       for (auto& kv : cnt) if (kv.second) c.fail("rand|value-outside-classes", d->getName() + " value " + num(kv.first));
+    }, 60.0, 1);
+  }
+
+  // ... also after the object has already been drawn from and one of its parameters was then changed (same number of classes): draws made
+  // after the update follow the probabilities the object reports after the update
+  {
+    int NU2 = th ? 4096 : 1024; Lattice LW2{NU2, false};
+    R.space("structure:distribution-rand-after-update", 5, [=](uint64_t idx, vf::Case& c) {
+      typedef std::unique_ptr<DiscreteDistributionInterface> UP;
+      UP d; std::string par; double nv = 0;
+      if (idx == 0) { std::vector<double> v = {1, 2, 5}, p = {0.2, 0.5, 0.3}; d.reset(new SimpleDiscreteDistribution(v, p)); par = "theta1"; nv = 0.7; }
+      else if (idx == 1) { d.reset(new InvariantMixedDiscreteDistribution(UP(new GammaDiscreteDistribution(3, 0.5, 0.5)), 0.1, 0.)); par = "p"; nv = 0.6; }
+      else if (idx == 2) { std::vector<UP> v; v.push_back(UP(new GammaDiscreteDistribution(2, 0.5, 0.5))); v.push_back(UP(new ExponentialDiscreteDistribution(2, 3.0))); d.reset(new MixtureOfDiscreteDistributions(v, std::vector<double>{0.2, 0.8})); par = "theta1"; nv = 0.75; }
+      else if (idx == 3) { d.reset(new GammaDiscreteDistribution(4, 0.5, 2.0)); par = "alpha"; nv = 3; }
+      else { std::vector<double> v = {1, 2, 5}, p = {0.2, 0.5, 0.3}; d.reset(new SimpleDiscreteDistribution(v, p)); par = "V2"; nv = 3; }
+      auto freq = [&](const std::string& when) {
+        std::map<double, uint64_t> cnt; c.site("DiscreteDistribution::rand");
+        for (int k = 0; k < NU2; ++k) { std::vector<uint32_t> ws; LW2.U(k, ws); inject(ws, FILL); cnt[d->rand()]++; }
+        c.out->evals += (uint64_t)NU2;
+        for (size_t i = 0; i < d->getNumberOfCategories(); ++i) { double v = d->getCategory(i), p = d->getProbability(i); double f = (double)cnt[v] / NU2; cnt.erase(v);
+          if (std::fabs(f - p) > 2.0 / NU2) c.fail("rand|class-frequencies-differ-from-probabilities|" + when, d->getName() + " " + when + ": class " + str(i) + " (value " + num(v) + ") frequency " + num(f) + " probability " + num(p)); }
+        for (auto& kv : cnt) if (kv.second) c.fail("rand|value-outside-classes|" + when, d->getName() + " " + when + ": value " + num(kv.first));
+      };
+      freq("before-any-update");
+      c.site("setParameterValue"); d->setParameterValue(par, nv);
+      freq("after-a-parameter-update-following-earlier-draws");
+      c.nontrivial();
     }, 60.0, 1);
   }
 
